@@ -28,6 +28,7 @@ package memfs
 import (
 	"io/fs"
 	"os"
+	"strings"
 	"time"
 
 	"github.com/avfs/avfs"
@@ -809,6 +810,11 @@ func (vfs *MemFS) Rename(oldpath, newpath string) error {
 			}
 
 			return &os.LinkError{Op: op, Old: oldpath, New: newpath, Err: nErr}
+		}
+
+		if oChild == node(oParent) || strings.HasPrefix(nPI.Path(), oPI.Path()+string(vfs.PathSeparator())) {
+			// a directory can't be moved into itself or one of its subdirectories.
+			return &os.LinkError{Op: op, Old: oldpath, New: newpath, Err: vfs.err.InvalidArgument}
 		}
 
 	case *fileNode:
